@@ -77,6 +77,13 @@ Qed.
 Lemma counts_zero_stash k v m : counts_zero (stash_k k v m) = counts_zero m.
 Proof. destruct m as [? ? ? ? ? ? ? sb sn sc]; destruct k; simpl; try done; [destruct sb|destruct sn|destruct sc]; done. Qed.
 
+Arguments m_add : simpl never.
+Arguments stash_k : simpl never.
+Arguments m_remove : simpl never.
+Arguments set_state : simpl never.
+Arguments committed : simpl never.
+Arguments get_state : simpl never.
+
 (* ------------------------------------------------------------------ *)
 (* one step of journal.revert *)
 Definition undo1 (j : jstate) : jstate :=
